@@ -75,6 +75,22 @@ theorem C10_backoff_bounds (wait min max : Nat) (hmm : min ≤ max) (refused : B
   cases refused <;> simp [Nat.min_def, Nat.max_def] <;> (repeat' split) <;> omega
 
 
+/-- `newClient` always leaves a minimum that does not exceed the maximum, whatever the application configured (zero, negative,
+a maximum below the minimum): the hypothesis of `C10_backoff_bounds` holds for every Config, and a Config left at its zero
+values waits the documented second. -/
+theorem C10_wait_normalised (mn mx : Int) :
+    (waitNorm mn mx).1 ≤ (waitNorm mn mx).2 ∧ (mn = 0 → (waitNorm mn mx).1 = 1000000000) ∧ (0 < mn → (waitNorm mn mx).1 = mn.toNat) := by
+  unfold waitNorm
+  simp only
+  refine ⟨?_, ?_, ?_⟩
+  · repeat' split
+    all_goals omega
+  · intro h; subst h; simp
+  · intro h
+    have h1 : (mn == 0) = false := by simp; omega
+    have h2 : ¬ mn < 0 := by omega
+    simp [h1, h2]
+
 /-! ## Lock order: no circular wait between the read routine, publishers and closers -/
 
 /-- REGENERATED FACT. The order in which `connect`, `submitPersisted` (with the write function it calls), `Close` and
